@@ -78,6 +78,9 @@ func zzHybNew(capv int64, mayFail bool) *zzHyb {
 	StripedBufferSize = 1
 	h := &zzHyb{sec: &zzSec{m: map[uint64]zzSecEnt{}, mayFail: mayFail}, next: 100}
 	h.origin = vfClockNow()
+	if vfConfig("POOL", 0) == 1 {
+		vfSetPoolMode(vfConfig("POOLMODE", 1))
+	}
 	var prob float32 = 1
 	switch vfConfig("PROB", 1) {
 	case 0:
@@ -89,6 +92,7 @@ func zzHybNew(capv int64, mayFail bool) *zzHyb {
 	}
 	h.s = NewStore[uint64, uint64](&StoreOptions[uint64, uint64]{
 		MaxSize: capv, SecondaryCache: h.sec, Workers: vfConfig("WORKERS", 1), Probability: prob,
+		EntryPool: vfConfig("POOL", 0) == 1,
 		Listener: func(k, v uint64, r RemoveReason) { h.notes = append(h.notes, zzNote{k, v, r}) },
 	})
 	if vfConfig("FULL", 0) == 1 {
@@ -306,6 +310,83 @@ func ZZ_C15_LoaderDemotion() {
 	vfAssert("found-without-reloading", err == nil && v == 501 && loads == 2)
 	h.settle()
 	vfAssert("memory-tier-within-max-size", h.memCost() <= 1)
+}
+
+// ZZ_C15_ReloadAfterSecondaryExpiry: loading hybrid cache, the copy in the secondary tier has passed its deadline,
+// the loader runs again, and the freshly loaded entry is evicted later: it has to reach the secondary tier
+// like any other loader-stored entry (its memory copy is newer than whatever the secondary tier held).
+func ZZ_C15_ReloadAfterSecondaryExpiry() {
+	h := zzHybNew(1, false)
+	s := h.s
+	ls := NewLoadingStore(s)
+	loads := 0
+	ls.Loader(func(ctx context.Context, key uint64) (Loaded[uint64], error) {
+		loads++
+		return Loaded[uint64]{Value: 500 + 10*uint64(loads) + key, Cost: 1, TTL: time.Duration(1 << 29)}, nil
+	})
+	v1, err1 := ls.Get(context.Background(), 1) // load #1: 511, deadline 2^29
+	h.settle()
+	_, err2 := ls.Get(context.Background(), 2) // load #2 evicts and demotes key 1
+	h.settle()
+	e, ok := h.sec.m[1]
+	vfAssert("first-copy-demoted", err1 == nil && err2 == nil && v1 == 511 && ok && e.val == 511)
+	d := vfI64("advance")
+	vfAssume(d >= 1<<29)
+	vfAssume(d <= 1<<31)
+	vfClockSet(h.origin + d)
+	s.timerwheel.clock.RefreshNowCache()
+	v3, err3 := ls.Get(context.Background(), 1) // the secondary copy has expired: load #3
+	h.settle()
+	vfReach("reloaded")
+	vfAssert("expired-secondary-copy-not-served", err3 == nil && v3 == 531 && loads == 3)
+	_, err4 := ls.Get(context.Background(), 3) // evicts key 1 (or key 2) again
+	h.settle()
+	vfAssert("fourth-load", err4 == nil)
+	if _, resident := s.shards[zzIndex(s, 1)].hashmap[1]; !resident {
+		e, ok = h.sec.m[1]
+		vfAssert("reloaded-entry-demoted-on-eviction", ok && e.val == 531)
+		before := loads
+		v5, err5 := ls.Get(context.Background(), 1)
+		vfAssert("reloaded-entry-found-without-reloading", err5 == nil && v5 == 531 && loads == before)
+	}
+	h.settle()
+	vfAssert("memory-tier-within-max-size", h.memCost() <= 1)
+}
+
+// ZZ_C15_PoolRecycled: hybrid cache with the entry pool on. An entry promoted from the secondary tier is evicted
+// (it is clean, so it is dropped, not written back) and its object is recycled for another key: the new key's
+// entry is not clean and must be demoted when it is evicted.
+func ZZ_C15_PoolRecycled() {
+	h := zzHybNew(1, false)
+	s := h.s
+	last := map[uint64]uint64{}
+	check := func(label string) {
+		h.settle()
+		vfAssert(label+":memory-tier-within-max-size", h.memCost() <= 1)
+		for k, v := range last {
+			if _, resident := s.shards[zzIndex(s, k)].hashmap[k]; !resident {
+				e, ok := h.sec.m[k]
+				vfAssert(label+":evicted-entry-in-secondary", ok && e.val == v)
+			}
+		}
+	}
+	set := func(k, v uint64, label string) {
+		s.Set(k, v, 1, 0)
+		last[k] = v
+		check(label)
+	}
+	set(1, 101, "s1")
+	set(2, 201, "s2") // key 1 demoted, its object pooled
+	v, hit, _ := s.GetWithSecodary(1)
+	vfAssert("promoted", hit && v == 101)
+	check("promote") // key 2 demoted
+	set(2, 202, "s3") // key 1 (clean) dropped and pooled with whatever flags it has
+	vfReach("recycling")
+	set(3, 301, "s4") // may reuse the object of key 1; key 2 demoted
+	set(4, 401, "s5") // key 3 must be demoted
+	set(5, 501, "s6")
+	v3, hit3, _ := s.GetWithSecodary(3)
+	vfAssert("recycled-entry-value-not-lost", hit3 && v3 == 301)
 }
 
 // ZZ_C14_DeleteVsGet: a hybrid Delete of a key that lives in the secondary tier races a hybrid Get of the same key.
